@@ -27,10 +27,19 @@ class EngineError(Exception):
     pass
 
 
+_ENGINE_TYPE_NAMES = ("'SNum'", "'SBV'", "'SComplex'", "'SBool'", "'SymSeq'", "'AffineSeq'", "SNum object", "SComplex object",
+                      "SBool object", "SBV object")
+
+
 class PyRaise(Exception):
     """an exception raised by the interpreted program"""
 
     def __init__(self, exc):
+        # a TypeError/ValueError that names one of the engine's own value classes was not raised by the program under contract
+        # but by native code that was handed a symbolic value it cannot take (hash(), bytes, C-level float()): that is a
+        # limitation of the engine - a checker fault (exit 3), never a refuted obligation
+        if isinstance(exc, (TypeError, ValueError)) and any(n in str(exc) for n in _ENGINE_TYPE_NAMES):
+            raise EngineError("symbolic value reached native code that cannot take it: %s: %s" % (type(exc).__name__, str(exc)[:200]))
         Exception.__init__(self, repr(exc))
         self.exc = exc
 
